@@ -17,6 +17,7 @@ type Graph struct {
 	Body *ast.BlockStmt
 	CFG  *cfg.CFG
 	Name string
+	Fi   *FuncInfo // the declared function this graph belongs to (also for its function literals)
 
 	nodeAt map[ast.Node]nodeLoc
 	live   map[*cfg.Block]bool
@@ -74,6 +75,7 @@ func (p *Program) mayReturn(info *types.Info) func(*ast.CallExpr) bool {
 func (p *Program) GraphOf(fi *FuncInfo) *Graph {
 	if fi.g == nil {
 		fi.g = p.newGraph(fi.Decl, fi.Decl.Body, fi.Pkg.TypesInfo, fi.Name)
+		fi.g.Fi = fi
 	}
 	return fi.g
 }
@@ -84,6 +86,7 @@ func (p *Program) GraphOfLit(fi *FuncInfo, lit *ast.FuncLit) *Graph {
 		return g
 	}
 	g := p.newGraph(lit, lit.Body, fi.Pkg.TypesInfo, fi.Name+"$lit@"+p.Pos(lit))
+	g.Fi = fi
 	litGraphs[lit] = g
 	return g
 }
@@ -609,6 +612,104 @@ func copyMax(m map[string]int) map[string]int {
 // Events solves the event analysis. Events emitted by a classifier for a
 // *ast.DeferStmt node are recorded as deferred (they happen at every exit after it).
 func (g *Graph) Events(cl Classifier) *EventFlow {
+	return g.eventsAt(cl, 0, map[*FuncInfo]*evSummary{})
+}
+
+// evSummary: what a callee does on all of its (non-panicking) paths: events on every path (must) and the
+// largest number of occurrences on any path (max).
+type evSummary struct {
+	must strset
+	max  map[string]int
+}
+
+// calleeSummary returns the event summary of a function of the same package called from a node of g, so that
+// a block of statements that was extracted into a helper still counts where it is called. Function literals,
+// go statements and recursion are not followed.
+func (g *Graph) calleeSummary(cl Classifier, fi *FuncInfo, depth int, cache map[*FuncInfo]*evSummary) *evSummary {
+	if s, ok := cache[fi]; ok {
+		return s // nil while in progress (recursion)
+	}
+	cache[fi] = nil
+	cg := g.P.GraphOf(fi)
+	ef := cg.eventsAt(cl, depth+1, cache)
+	sum := &evSummary{max: map[string]int{}}
+	first := true
+	for _, e := range cg.Exits() {
+		if e.Kind == ExitPanic {
+			continue
+		}
+		st, ok := ef.ExitState(e)
+		if !ok {
+			continue
+		}
+		if first {
+			sum.must, first = st.Must, false
+		} else {
+			sum.must = sum.must.intersect(st.Must)
+		}
+		for k, v := range st.Max {
+			if v > sum.max[k] {
+				sum.max[k] = v
+			}
+		}
+	}
+	if first {
+		sum.must = strset{}
+	}
+	cache[fi] = sum
+	return sum
+}
+
+func (g *Graph) eventsAt(cl Classifier, depth int, cache map[*FuncInfo]*evSummary) *EventFlow {
+	// callee events for a node
+	calleeEvents := func(n ast.Node) (must []string, may map[string]int) {
+		if depth >= 2 || g.Fi == nil {
+			return nil, nil
+		}
+		switch n.(type) {
+		case *ast.GoStmt, *ast.DeferStmt:
+			return nil, nil
+		}
+		inspectNoLit(n, func(x ast.Node) bool {
+			c, ok := x.(*ast.CallExpr)
+			if !ok {
+				return true
+			}
+			fn := calleeOf(g.Info, c)
+			if fn == nil {
+				return true
+			}
+			callee := g.P.FuncOf(fn)
+			if callee == nil || callee == g.Fi || callee.Decl.Body == nil || callee.Pkg != g.Fi.Pkg {
+				return true
+			}
+			sum := g.calleeSummary(cl, callee, depth, cache)
+			if sum == nil {
+				return true
+			}
+			for e := range sum.must {
+				must = append(must, e)
+			}
+			for e, k := range sum.max {
+				if !sum.must[e] {
+					if may == nil {
+						may = map[string]int{}
+					}
+					if k > may[e] {
+						may[e] = k
+					}
+				} else if k > 1 {
+					if may == nil {
+						may = map[string]int{}
+					}
+					may[e] = k - 1
+				}
+			}
+			return true
+		})
+		sort.Strings(must)
+		return
+	}
 	l := Lattice[EvState]{
 		Init: EvState{Must: strset{}, Max: map[string]int{}, Deferred: strset{}},
 		Join: func(a, b EvState) EvState {
@@ -633,8 +734,27 @@ func (g *Graph) Events(cl Classifier) *EventFlow {
 		},
 		Step: func(s EvState, st Step) EvState {
 			evs := cl(st)
-			if len(evs) == 0 {
+			var may map[string]int
+			if st.Kind == StNode {
+				m, y := calleeEvents(st.Node)
+				evs = append(evs, m...)
+				may = y
+			}
+			if len(evs) == 0 && len(may) == 0 {
 				return s
+			}
+			if len(may) > 0 {
+				mx := copyMax(s.Max)
+				for e, k := range may {
+					mx[e] += k
+					if mx[e] > 2 {
+						mx[e] = 2
+					}
+				}
+				s = EvState{Must: s.Must, Max: mx, Deferred: s.Deferred}
+				if len(evs) == 0 {
+					return s
+				}
 			}
 			if st.Kind == StNode {
 				if _, isDefer := st.Node.(*ast.DeferStmt); isDefer {
@@ -692,4 +812,53 @@ func inspectNoLit(n ast.Node, f func(ast.Node) bool) {
 
 func posWithin(n ast.Node, pos token.Pos) bool {
 	return n != nil && n.Pos() <= pos && pos < n.End()
+}
+
+// MustBefore returns the events that have happened on every path before node n of function fn, including — when
+// fn is a private helper — the events that happened in its callers before every call (two levels). mk builds the
+// classifier for a given function's graph.
+func (p *Program) MustBefore(mk func(g *Graph) Classifier, fn *FuncInfo, n ast.Node, depth int) strset {
+	g := p.GraphOf(fn)
+	ef := g.Events(mk(g))
+	var node ast.Node = n
+	if cn, ok := g.cfgNodeOf(n); ok {
+		node = cn
+	}
+	s, ok := ef.Sol.Before(node)
+	out := strset{}
+	if ok {
+		for k := range s.Must {
+			out = out.with(k)
+		}
+	}
+	if depth >= 2 || fn.Obj == nil || fn.Obj.Exported() {
+		return out
+	}
+	var common strset
+	nsites := 0
+	for _, caller := range p.SortedFuncs() {
+		if caller.Decl.Body == nil || caller.Pkg != fn.Pkg || caller == fn {
+			continue
+		}
+		for _, c := range callsIn(caller.Decl.Body) {
+			if f := calleeOf(caller.Pkg.TypesInfo, c); f != nil && p.FuncOf(f) == fn {
+				if _, inLit := p.enclosingFuncNode(c).(*ast.FuncLit); inLit {
+					return out // called from a closure: caller state unknown
+				}
+				nsites++
+				cs := p.MustBefore(mk, caller, c, depth+1)
+				if common == nil {
+					common = cs
+				} else {
+					common = common.intersect(cs)
+				}
+			}
+		}
+	}
+	if nsites > 0 {
+		for k := range common {
+			out = out.with(k)
+		}
+	}
+	return out
 }
